@@ -174,7 +174,10 @@ def reference_run(c, fx):
                 parts = [observe_part1(c, fx)]
             outs = [("f", c.head)] + [("f", p) for p in parts]
         else:
-            assert len(leaves) == 1, leaves
+            if len(leaves) != 1:
+                # the command does not even work in a clean directory (nothing to protect, nothing to place)
+                c.outputs = None
+                return r
             outs = [("f", leaves[0])]
         c.outputs = outs
         return r
@@ -396,7 +399,10 @@ def collect(c, tier, seed, replay=None):
     fx = Fixtures(seed, c.work)
     cs = commands(fx, tier)
     for cmd in cs:
-        reference_run(cmd, fx)
+        r = reference_run(cmd, fx)
+        if cmd.outputs is None:
+            c.notes.append("command skipped, it fails in a clean directory: %s (rc=%s %s)" % (r["cmd"], r["rc"], r["err"][-200:].decode("utf-8", "replace").strip()))
+    cs = [cmd for cmd in cs if cmd.outputs is not None]
     scen = scenarios(cs, tier, rnd)
     if replay:
         want = None
